@@ -13,6 +13,7 @@ func init() {
 	verifHarnesses["HarnessC19Create"] = HarnessC19Create
 	verifHarnesses["HarnessC19Errors"] = HarnessC19Errors
 	verifHarnesses["HarnessC19Boundary"] = HarnessC19Boundary
+	verifHarnesses["HarnessC19Prefix"] = HarnessC19Prefix
 }
 
 // c19Norm is the documented header normalisation: lower-cased, every character outside a-z
@@ -330,5 +331,43 @@ func HarnessC19Boundary() {
 		got.Close()
 	}
 	want.Close()
+	verifReach("end")
+}
+
+// HarnessC19Prefix: one header is a prefix of the other and the values are chosen so that
+// column name and value concatenate alike across the two columns; the expected counts come
+// from the records themselves (not from a second index built by the same library).
+func HarnessC19Prefix() {
+	in := verifTempPath("c19p.csv")
+	recs := [][]string{{"s1", ""}, {"", "1"}, {"s1", "1"}, {"x", "s1"}}
+	verifCSV(in, append([][]string{{"Part", "Parts"}}, recs...), -1)
+	names := []string{"part", "parts"}
+	for mode := 0; mode < 2; mode++ {
+		out := verifTempPath([]string{"c19p_normal.updog", "c19p_big.updog"}[mode])
+		tag := []string{"C19 normal mode", "C19 --big mode"}[mode]
+		err := createCmd(&globalConfig{}, &createConfig{outputFile: out, inputFile: in, big: mode == 1})
+		verifAssert(err == nil, tag+": a well-formed CSV was rejected")
+		if err != nil {
+			return
+		}
+		idx, err := updog.OpenIndex(out)
+		verifAssert(err == nil, tag+": the created index cannot be opened")
+		if err != nil {
+			return
+		}
+		for j, name := range names {
+			for _, v := range []string{"s1", "1", "", "x"} {
+				want := uint64(0)
+				for _, r := range recs {
+					if r[j] == v {
+						want++
+					}
+				}
+				got, ok := c19Count(idx, &updog.ExprEqual{Column: name, Value: v})
+				verifAssert(ok && got == want, tag+": a field value is not held by exactly the records that carry it (headers one a prefix of the other)")
+			}
+		}
+		idx.Close()
+	}
 	verifReach("end")
 }
